@@ -67,6 +67,25 @@ Proof.
 Qed.
 Print Assumptions C07_nonshareable_private.
 
+(* ... and private means private: for builder and app names that are plain path components (non-empty, no '/') two
+   different (builder, app) pairs never get the same object for a source of a non-shareable rule *)
+Require Import Laze.proofs.PrivateDirs.
+Theorem C07_nonshareable_distinct : forall objdir b1 a1 b2 a2 src h1 h2 rout,
+  plain b1 -> plain a1 -> plain b2 -> plain a2 ->
+  object_path objdir b1 a1 false src h1 rout = object_path objdir b2 a2 false src h2 rout ->
+  b1 = b2 /\ a1 = a2.
+Proof. exact nonshareable_private_distinct. Qed.
+Print Assumptions C07_nonshareable_distinct.
+
+(* the boundary (open finding K07:slash-in-names): with a '/' in a name, builder a/b + app c and builder a + app b/c
+   share one "private" directory *)
+Example C07_slash_names_clash :
+  object_path (S_ "build/objects") (S_ "a/b") (S_ "c") false (S_ "x.S") 0 (S_ "o") =
+  object_path (S_ "build/objects") (S_ "a") (S_ "b/c") false (S_ "x.S") 0 (S_ "o").
+Proof. exact slash_names_clash. Qed.
+Example C07_ex_plain : plain (S_ "b0") /\ plain (S_ "net_echo").
+Proof. split; (split; [discriminate|intros c Hc; cbn in Hc; repeat (destruct Hc as [<-|Hc]; [reflexivity|]); contradiction]). Qed.
+
 Theorem C07_decimal_injective : forall n1 n2, show_dec n1 = show_dec n2 -> n1 = n2.
 Proof. exact show_dec_inj. Qed.
 Print Assumptions C07_decimal_injective.
